@@ -240,3 +240,37 @@ Fixpoint bbs_ok (c : cfg) (i : nat) (bs : list bb) : bool :=
   end.
 
 Definition cfg_ok (c : cfg) : bool := bbs_ok c 0 (c_bbs c).
+
+(* ---- cfg_ok = structural part + the linearity checker's part ------------------------------ *)
+
+(* non-droppable places live after a branch are live in every successor *)
+Definition lin_ok (b : bb) : bool :=
+  match b_outs b with
+  | first :: r1 :: rest => forallb (fun r => row_equiv (nondrop first) (nondrop r)) (r1 :: rest)
+  | _ => true
+  end.
+
+Definition bb_struct_ok (c : cfg) (i : nat) (b : bb) : bool :=
+  if Nat.eqb i (c_exit c) then true
+  else
+    edges_ok c (b_succs b) (b_outs b) &&
+    match b_outs b with
+    | [] => false
+    | [_] => true
+    | first :: rest => negb (jumps_to_exit c b) && forallb (consistent first) rest
+    end.
+
+Fixpoint bbs_struct_ok (c : cfg) (i : nat) (bs : list bb) : bool :=
+  match bs with
+  | [] => true
+  | b :: bs' => bb_struct_ok c i b && bbs_struct_ok c (S i) bs'
+  end.
+
+Fixpoint bbs_lin_ok (c : cfg) (i : nat) (bs : list bb) : bool :=
+  match bs with
+  | [] => true
+  | b :: bs' => (Nat.eqb i (c_exit c) || lin_ok b) && bbs_lin_ok c (S i) bs'
+  end.
+
+Definition cfg_struct_ok (c : cfg) : bool := bbs_struct_ok c 0 (c_bbs c).
+Definition cfg_lin_ok (c : cfg) : bool := bbs_lin_ok c 0 (c_bbs c).
